@@ -1,6 +1,6 @@
 /-
   Driver/Loops.lean — whole-engine `replay` / `iterate` / nested-replay jobs (C10).
-  header: `<id> loops <kind> <hosts> <cores> <max> <body> <fold> <cond> <init> <delay> <maxInner>`
+  header: `<id> loops <kind> <hosts> <cores> <max> <body> <fold> <cond> <init> <delay> <maxInner>` (`delay` is opaque here)
   ops:    `i <x>`
   outputs: `state <list>`, `items <sorted list>` (iterate), `obs <o|i> <round> <distinct observed states…>`.
   Everything is recomputed from the op lines with the sequential reference semantics
